@@ -36,6 +36,7 @@ def run(ck, fb):
     ck.undecided = ('Does not decide that the namespace which is checked is the one finally used when a handler renames it on the way '
                     '(value identity beyond one function).')
     r18a(ck, fb)
+    r18e(ck, fb)
     r18b(ck, fb)
     r18c(ck, fb)
     r18d(ck, fb)
@@ -302,3 +303,49 @@ def r18d(ck, fb):
             t = Taint(b, place_src=field_place_src('namespace_privilege'))
             ck.require(t.op_tainted(o), 'R18d', 'UserSession:%s' % fb.root_of(b.name), b.where(i), 'a session is created with a namespace privilege that does not come from the user record')
     ck.floor('R18d', 'UserSession constructions', n, 2)
+
+
+def r18e(ck, fb):
+    ck.rule('R18e', 'the "unrestricted" fast path agrees with the predicate: PrivilegeGroup::is_all() may be true only for groups for which '
+                    'check_permission is true for every key - whitelist_is_all && !blacklist_is_all && (no blacklist or an empty one). Decided as a '
+                    'truth table over (enabled, whitelist_is_all, blacklist_is_all, blacklist None|Some, blacklist.is_empty()), helpers '
+                    'interpreted. Listing handlers skip their per-item filter when is_all() holds')
+    ia = find_generic(fb, 'PrivilegeGroup::<T>::is_all')
+    if not ck.require(len(ia) >= 1, 'R18e', 'anchor:is_all', '-', 'PrivilegeGroup::is_all not found'):
+        return
+    b = ia[0]
+    ck.analysed(b)
+    from rn.absint import enumerate_tables, Undecided, Unsupported, Panic
+
+    def m_empty(i, fr, t, args):
+        return BV.const(1, int(i.env.atom('BL_EMPTY', 'bool')))
+    models = dict(CONTAINS_MODEL)
+    models['std::collections::HashSet::<T, S, A>::is_empty'] = m_empty
+    models['std::collections::HashSet::<T, S>::is_empty'] = m_empty
+    try:
+        atoms, rows = enumerate_tables(fb, b, lambda: [Ref(obj=SymObj('self'))], call_models=models)
+    except (Undecided, Unsupported, Panic) as e:
+        ck.bad('R18e', 'is_all:table', b.where(), 'truth table of is_all cannot be computed: %s' % e)
+        return
+    n = 0
+    bad = None
+    for (assign, r, calls) in rows:
+        n += 1
+        got = bool(r.value())
+        if not got:
+            continue
+        w = assign.get('self.whitelist_is_all')
+        bl_all = assign.get('self.blacklist_is_all')
+        bl = assign.get('self.blacklist')
+        empty = assign.get('BL_EMPTY')
+        # every atom the verdict needs must have been looked at and have the safe value
+        ok = (w is True) and (bl_all is False) and (bl == 'None' or (bl == 'Some' and empty is True))
+        if not ok:
+            bad = 'is_all() is true for %s: such a group refuses some keys (check_permission false), yet listing handlers that test is_all() ' \
+                  'skip their filter and return the refused namespaces' % {k: v for k, v in assign.items()}
+            break
+    ck.floor('R18e', 'is_all rows', n, 2)
+    ck.require(bad is None, 'R18e', 'is_all:implies-every-key-permitted', b.where(), bad or '', '%d rows' % n)
+    n2 = fb.bodies.get(PV + 'NamespacePrivilegeGroup::is_all')
+    if n2 is not None:
+        ck.require(len(n2.calls(r'PrivilegeGroup::<T>::is_all$')) >= 1, 'R18e', 'NamespacePrivilegeGroup::is_all:delegates', n2.where(), 'NamespacePrivilegeGroup::is_all does not delegate')
